@@ -543,6 +543,11 @@ def run(ctx):
                          {'path': path_kind, 'model': prov, 'sheets': sheets,
                           'problems': bad_sw[:8]}, monitor='probe-value',
                          group='switched-chain:' + bad_sw[0][:10])
+        # (the failing formulas once more: a FAILED evaluation is the last
+        # thing that happens before the cells are re-assigned)
+        for key in failing:
+            subject.outcome_of(lambda: ev.evaluate(build.addr(key)))
+            ctx.event('failing_evaluations_before_reassignment')
         # ---- the CURRENT value: cells of the blocks are re-assigned through
         # set_cell_value and a sample of the probes is evaluated again
         numeric = [k for k, v in cells.items()
